@@ -215,6 +215,19 @@ theorem source_limits :
     minVersion_BIP34Height = 2 ∧ minVersion_BIP66Height = 3 ∧ minVersion_BIP65Height = 4 := by
   decide
 
+/-- the remaining limits that gen_c05 reads off guards (not named in the property statement, but part of the
+    decision logic the soundness theorems are about), in the canonical form the translator emits (`x <= c` is read
+    as `x < c+1`, so a guard shifted by one shows up here as a changed number): PostCheckBlock wants more than the
+    80-byte header, a version of exactly 0 is refused outright, a time-too-new block counts as DoS from five minutes
+    beyond the two hours, a side branch is refused from MovingCheckopintDepth below the tip, a transaction's
+    stripped size times 4 is held against MAX_BLOCK_WEIGHT, and the testnet min-difficulty rule needs a gap of more
+    than two target spacings. -/
+theorem secondary_limits :
+    postMinRawLen = preMinRawLen + 1 ∧ forbiddenVersion = 0 ∧ futureDosLimit = maxFutureBlockTime + 300 ∧
+    forkDepthLimit = MovingCheckopintDepth ∧ txMaxWeight = MAX_BLOCK_WEIGHT ∧
+    testnetMinDiffGap = 2 * TargetSpacing := by
+  decide
+
 /-- structural facts about the `BlockIndex` look-ups, re-read from the source on every run (gen_c05): the entry found
     under the 8-byte key is compared with the WHOLE hash — of the block itself in PreCheckBlock's "already in" test,
     of the header's previous-block field in PreCheckBlock and in AcceptHeader (fix 533896f3). -/
